@@ -2,7 +2,7 @@
    script that realises them is read-only: the `read_only` hypothesis of the logging theorems is discharged from the source. *)
 From Coq Require Import List Arith Bool ZArith.
 From Coq Require String.
-From Leaspy Require Import Api.ApiModel Api.ApiProofs Api.ApiInst Api.RunProg Api.RunProgProofs Api.RunProgTie
+From Leaspy Require Import Api.ApiModel Api.ApiProofs Api.ApiInst Api.RunProg Api.RunProgProofs Api.RunProgTie Api.ApiTie
      Api.ObserverSrc Api.ObserverSrcProofs.
 From LeaspyGen Require Import GenC11 GenC11Obs.
 Import ListNotations.
@@ -89,3 +89,27 @@ Module GenObsDemo.
     final_view (run e1) = final_view (run (logging_off e1)) /\ final_view (run e1) <> None.
   Proof. split; vm_compute; [reflexivity | discriminate]. Qed.
 End GenObsDemo.
+
+(* ---------------------------------------------------------------------- T2: a recorded observer call performs only the operations
+   read from the source.  case = (the methods the output manager ran at that iteration — 0 print_algo, 1 print_model, 2 print_time,
+   3 save, 4 plot-patients, 5 plot-convergence —, the State / generator operations recorded during the call, ApiTie.v encoding) *)
+Definition oname_of (n : nat) : option oname :=
+  match n with
+  | 0 => Some OPrintAlgo | 1 => Some OPrintModel | 2 => Some OPrintTime | 3 => Some OSave | 4 => Some OPlotPatients
+  | 5 => Some OPlotConvergence | _ => None
+  end.
+Definition ops_of_codes (l : list nat) : list obs_op :=
+  flat_map (fun n => match oname_of n with Some o => gen_observer_ops o | None => [] end) l.
+Definition check_observer_segment (c : list nat * list rop) : bool :=
+  match c with
+  | (obs, seg) =>
+      forallb (fun n => match oname_of n with Some _ => true | None => false end) obs
+      && match decode_all seg with Some d => realises U (ops_of_codes obs) d | None => false end
+  end.
+
+(* the check is not vacuous: a save-only call may not read through the model, a print call may not clone, nobody may draw *)
+Example check_observer_segment_refuses :
+  check_observer_segment ([3], [(4, 0, 0)]) = true /\ check_observer_segment ([3], [(4, 0, 0); (3, 0, 0)]) = false
+  /\ check_observer_segment ([0; 1; 2], [(6, 0, 2)]) = false /\ check_observer_segment ([4], [(1, 0, 3)]) = false
+  /\ check_observer_segment ([4], [(3, 0, 0); (1, 1, 3); (0, 1, 2); (0, 0, 1)]) = true.
+Proof. vm_compute. repeat split; reflexivity. Qed.
